@@ -48,8 +48,16 @@ def build_harness():
 # running scripts
 
 def _run_exe(exe, text, timeout):
-    p = subprocess.run([exe], input=text, stdout=subprocess.PIPE, stderr=subprocess.PIPE, text=True,
-                       timeout=timeout)
+    """(rc, stdout); a process that does not finish in time is killed and reported with rc 3 (the
+    code of the harness's own deadlock watchdog) and whatever it had written."""
+    try:
+        p = subprocess.run([exe], input=text, stdout=subprocess.PIPE, stderr=subprocess.PIPE, text=True,
+                           timeout=timeout)
+    except subprocess.TimeoutExpired as e:
+        out = e.stdout or ''
+        if isinstance(out, bytes):
+            out = out.decode('utf-8', 'replace')
+        return 3, out
     return p.returncode, p.stdout
 
 def run_both(scripts, timeout=600, isolate=None):
@@ -96,7 +104,7 @@ def run_both(scripts, timeout=600, isolate=None):
                 # the implementation process died (abort / deadlock watchdog): isolate per script
                 for i in idx:
                     text = ''.join(l + '\n' for l in scripts[i])
-                    rc1, o1 = _run_exe(IMPL, text, timeout)
+                    rc1, o1 = _run_exe(IMPL, text, min(timeout, 120))
                     l1 = o1.split('\n')
                     rows = []
                     for k, r in enumerate(results[i]):
@@ -129,7 +137,9 @@ def classify(rows):
             continue
         if not oracle_ok(io, so):
             of.append(k)
-        if io != mo:
+        if io != mo and not line.startswith('dumpi'):
+            # (`dumpi` = a dump whose memo fields legitimately depend on the thread schedule: it is
+            # only looked at by the predicates on the implementation's side)
             md.append(k)
     return of, md
 
